@@ -58,3 +58,24 @@ def spec_imd(year, month, day, rev):
 
 def hash_elems(h):
     raise NotImplementedError("hash arguments are not observable natively")
+
+
+def runmin(idx, d, k, sgn):
+    """min(d, lengths of the k months after (sgn=+1) / before (sgn=-1) month idx):
+    the day-of-month that k successive clamped single-month steps leave."""
+    r = d
+    for j in range(1, k + 1):
+        r = min(r, cal.dim_idx(idx + sgn * j))
+    return r
+
+
+def runmin_def(idx, d, k, sgn):
+    return True
+
+
+def use_lemma(name, **kw):
+    return True
+
+
+def assume(x):
+    return True
